@@ -41,14 +41,41 @@ type env struct {
 	cur    map[int]*call // engine task id -> call whose Allow is executing
 	nTasks int           // upper bound of tasks operating on a shedder concurrently
 	stray  int           // checker calls that no harness Allow accounts for
+	// realChk: go-zero's own CPU predicate (stat.CpuUsage() >= threshold) is in place
+	// instead of the recording one; "overloaded during an Allow" is then derived from the
+	// CPU values that were current while the Allow ran (interval reasoning)
+	realChk  bool
+	flipping bool  // a CPU change is being applied: both cpu and cpuNext may be read
+	cpuNext  int64 // the value being applied
 }
 
 func (e *env) tick() int { e.clk++; return e.clk }
 
+// setCPU changes the CPU signal.  Every Allow that is executing meanwhile may have
+// read the old or the new value.
 func (e *env) setCPU(v int64) {
-	e.cpu = v
+	if v < 0 {
+		v = 0
+	}
+	e.cpuNext, e.flipping = v, true
+	e.seenByRunningAllows(v)
 	stat.VerifSetCpuUsage(v)
+	e.cpu, e.flipping = v, false
+	e.seenByRunningAllows(v) // Allows that began while the value was being stored
 	e.r.Ev("cpu", v)
+}
+
+func (e *env) seenByRunningAllows(v int64) {
+	for _, c := range e.cur { // order-independent (min / max only)
+		c.sawCPU(v)
+	}
+}
+
+// useRealPredicate puts go-zero's own CPU predicate back in place for this run.
+func (e *env) useRealPredicate() {
+	e.realChk = true
+	load.VerifC02RestoreOverloadChecker()
+	e.r.Probe("real-cpu-predicate")
 }
 
 // install wires the CPU signal of this run into go-zero.
@@ -60,8 +87,10 @@ func (e *env) install() {
 	// tests of go-zero run with the reporter switched off; do the same (public API).
 	stat.SetReporter(nil)
 	stat.VerifSetCpuUsage(0)
-	// load.Disable() is process-global and has no public inverse: every run starts enabled
+	// load.Disable() / load.DisableLog() are process-global and have no public inverse:
+	// every run starts with both switches on
 	load.VerifC02SetEnabled(true)
+	load.VerifC02SetLogEnabled(true)
 	load.VerifSetOverloadChecker(func(thr int64) bool {
 		over := e.cpu >= thr
 		c := e.cur[e.r.CurrentID()]
@@ -82,6 +111,8 @@ func (e *env) install() {
 
 func (e *env) uninstall() {
 	stat.VerifSetCpuUsage(0)
+	load.VerifC02SetEnabled(true)
+	load.VerifC02SetLogEnabled(true)
 	load.VerifSetOverloadChecker(func(int64) bool { return false })
 }
 
@@ -91,7 +122,10 @@ type call struct {
 	p    load.Promise
 	done bool // Allow returned
 	shed bool
-	over bool // the CPU predicate answered "overloaded" during this Allow
+	over bool // the CPU predicate answered (real predicate: may have answered) "overloaded" during this Allow
+	// overSure: the CPU was at or above the threshold whenever this Allow may have looked
+	overSure     bool
+	cpuLo, cpuHi int64 // range of the CPU values current while this Allow ran
 	// Allow: logical ticks and virtual instants (relative to the creation of the shedder)
 	kInv, kRet int
 	tInv, tRet time.Duration
@@ -104,11 +138,48 @@ type call struct {
 	sLo          int // lower bound of the in-flight count right after this resolution
 }
 
+func (c *call) sawCPU(v int64) {
+	if v < c.cpuLo {
+		c.cpuLo = v
+	}
+	if v > c.cpuHi {
+		c.cpuHi = v
+	}
+}
+
+// opened: the Allow of c starts now.
+func (e *env) opened(c *call) {
+	e.cur[e.r.CurrentID()] = c
+	c.cpuLo, c.cpuHi = e.cpu, e.cpu
+	if e.flipping {
+		c.sawCPU(e.cpuNext)
+	}
+}
+
+// overPossible: the CPU predicate may have answered "overloaded" during the Allow of
+// d (which may still be running).
+func (w *world) overPossible(d *call) bool {
+	if w.e.realChk && !d.done {
+		return d.cpuHi >= w.cfg.thr
+	}
+	return d.over
+}
+
+// config is the EFFECTIVE configuration of a shedder; shape tells which options
+// are handed to the constructor (the others are left to the documented defaults).
 type config struct {
 	window  time.Duration
 	buckets int
 	thr     int64
+	shape   int
 }
+
+// documented defaults of NewAdaptiveShedder
+const (
+	defWindow  = 5 * time.Second
+	defBuckets = 50
+	defThr     = 900
+)
 
 func (c config) interval() time.Duration { return c.window / time.Duration(c.buckets) }
 
@@ -131,21 +202,121 @@ type world struct {
 	nAdmit   int
 }
 
+// option shapes
+const (
+	shAll       = iota // WithWindow, WithBuckets, WithCpuThreshold
+	shNone             // no option at all: the defaults
+	shThr              // only the threshold (what the REST / zrpc servers pass)
+	shWindow           // only the window
+	shBuckets          // only the number of buckets
+	shWinBkt           // window and buckets
+	shThrWin           // threshold and window
+	shOverriden        // every option twice, in reverse order: the later value counts
+	nShapes
+)
+
 func drawConfig(t *simrt.Tape) config {
-	return config{
-		window:  []time.Duration{5 * time.Second, time.Second, 2 * time.Second, 10 * time.Second, 3 * time.Second}[t.Intn(5)],
-		buckets: []int{50, 10, 5, 20, 100, 7}[t.Intn(6)],
-		thr:     []int64{900, 500, 100, 950, 700}[t.Intn(5)],
+	cfg := config{
+		// sub-second windows (shorter than the cool-off second), windows that are no whole
+		// number of seconds, a window of a minute; 1-3 buckets (with 1 bucket there is never
+		// a complete bucket to look at); thresholds 0 (always overloaded), 1, 999
+		window: []time.Duration{5 * time.Second, time.Second, 2 * time.Second, 10 * time.Second, 3 * time.Second,
+			500 * time.Millisecond, 100 * time.Millisecond, 2500 * time.Millisecond, time.Minute}[t.Intn(9)],
+		buckets: []int{50, 10, 5, 20, 100, 7, 1, 2, 3}[t.Intn(9)],
+		thr:     []int64{900, 500, 100, 950, 700, 0, 1, 999}[t.Intn(8)],
 	}
+	if t.Chance(1, 3) {
+		cfg.shape = t.Range(1, nShapes-1)
+	}
+	switch cfg.shape {
+	case shNone:
+		cfg.window, cfg.buckets, cfg.thr = defWindow, defBuckets, defThr
+	case shThr:
+		cfg.window, cfg.buckets = defWindow, defBuckets
+	case shWindow:
+		cfg.buckets, cfg.thr = defBuckets, defThr
+	case shBuckets:
+		cfg.window, cfg.thr = defWindow, defThr
+	case shWinBkt:
+		cfg.thr = defThr
+	case shThrWin:
+		cfg.buckets = defBuckets
+	}
+	return cfg
 }
 
 func (cfg config) opts() []load.ShedderOption {
-	return []load.ShedderOption{load.WithWindow(cfg.window), load.WithBuckets(cfg.buckets), load.WithCpuThreshold(cfg.thr)}
+	w, b, c := load.WithWindow(cfg.window), load.WithBuckets(cfg.buckets), load.WithCpuThreshold(cfg.thr)
+	switch cfg.shape {
+	case shNone:
+		return nil
+	case shThr:
+		return []load.ShedderOption{c}
+	case shWindow:
+		return []load.ShedderOption{w}
+	case shBuckets:
+		return []load.ShedderOption{b}
+	case shWinBkt:
+		return []load.ShedderOption{b, w}
+	case shThrWin:
+		return []load.ShedderOption{c, w}
+	case shOverriden:
+		return []load.ShedderOption{load.WithCpuThreshold(cfg.thr/2 + 17), load.WithBuckets(cfg.buckets + 3), load.WithWindow(cfg.window + 700*time.Millisecond), c, b, w}
+	}
+	return []load.ShedderOption{w, b, c}
+}
+
+// drawCreateDelay: how long the clock runs before a shedder is created, so that its
+// buckets are aligned to an instant that is no round reading of any clock.
+func drawCreateDelay(t *simrt.Tape, cfg config) time.Duration {
+	switch t.Intn(8) {
+	case 4:
+		return time.Duration(t.Range(1, 999))
+	case 5:
+		return time.Duration(t.Range(1, 400))*time.Millisecond + time.Duration(t.Range(0, 999999))
+	case 6:
+		return cfg.interval()/2 + 1
+	case 7:
+		return time.Duration(t.Range(1, 7))*time.Second + 123456789
+	}
+	return 0
+}
+
+// lateCreation lets the drawn delay pass before a shedder is created.
+func lateCreation(e *env, cfg config) {
+	if d := drawCreateDelay(e.r.Tape, cfg); d > 0 {
+		e.r.Sleep(d)
+		e.r.Probe("created-off-the-clock-grid")
+	}
+}
+
+// maybeDisableLog: load.DisableLog() only silences the shedding statistics; it must not
+// change any decision.
+func maybeDisableLog(e *env) {
+	if e.r.Tape.Chance(1, 6) {
+		load.DisableLog()
+		e.r.Probe("stat-log-disabled")
+	}
 }
 
 func baseWorld(e *env, cfg config, disabled bool) *world {
 	w := &world{e: e, cfg: cfg, interval: cfg.interval(), size: cfg.buckets, disabled: disabled}
 	w.bps = float64(time.Second) / float64(w.interval)
+	if cfg.shape != shAll {
+		e.r.Probe([]string{"", "options-none", "options-threshold-only", "options-window-only", "options-buckets-only", "options-window-buckets", "options-threshold-window", "options-overridden"}[cfg.shape])
+	}
+	if cfg.window < time.Second {
+		e.r.Probe("window-below-cool-off-second")
+	}
+	if cfg.window%time.Second != 0 {
+		e.r.Probe("window-no-whole-seconds")
+	}
+	if cfg.buckets <= 3 {
+		e.r.Probe("buckets-1-to-3")
+	}
+	if cfg.thr == 0 {
+		e.r.Probe("threshold-zero")
+	}
 	return w
 }
 
@@ -162,6 +333,7 @@ func (w *world) created(before time.Time) {
 // newWorld creates the shedder under test.  via: 0 NewAdaptiveShedder, 1 ShedderGroup (looked up for every call).
 func newWorld(e *env, cfg config, via int, disabled bool) *world {
 	w := baseWorld(e, cfg, disabled)
+	lateCreation(e, cfg)
 	before := time.Now()
 	if via == 0 {
 		sh := load.NewAdaptiveShedder(cfg.opts()...)
@@ -189,6 +361,7 @@ func newGroupWorlds(e *env, cfg config, n int, disabled bool, between func()) []
 		key := fmt.Sprintf("key%d", i)
 		w := baseWorld(e, cfg, disabled)
 		w.pfx, w.desc = "group/", key
+		lateCreation(e, cfg) // every key is first looked up at an instant of its own
 		before := time.Now()
 		g.GetShedder(key)
 		w.created(before)
@@ -226,12 +399,10 @@ func msf(d time.Duration) float64 { return float64(d) / float64(time.Millisecond
 // allow performs one Allow on the shedder and judges the answer.
 func (w *world) allow() *call {
 	e := w.e
-	r := e.r
 	c := &call{id: len(w.calls), w: w}
 	w.calls = append(w.calls, c)
-	tid := r.CurrentID()
 	sh := w.get()
-	e.cur[tid] = c
+	e.opened(c)
 	c.kInv, c.tInv = e.tick(), w.now()
 	p, err := sh.Allow()
 	shed := true
@@ -257,7 +428,7 @@ func (w *world) begin() *call {
 	e := w.e
 	c := &call{id: len(w.calls), w: w}
 	w.calls = append(w.calls, c)
-	e.cur[e.r.CurrentID()] = c
+	e.opened(c)
 	c.kInv, c.tInv = e.tick(), w.now()
 	return c
 }
@@ -267,6 +438,12 @@ func (w *world) decided(c *call, shed bool, extra func()) {
 	e := w.e
 	r := e.r
 	c.kRet, c.tRet = e.tick(), w.now()
+	if e.realChk {
+		// go-zero's own predicate is in place: it read the CPU signal at some instant of this Allow
+		c.over, c.overSure = c.cpuHi >= w.cfg.thr, c.cpuLo >= w.cfg.thr
+	} else {
+		c.overSure = c.over
+	}
 	c.done = true
 	delete(e.cur, r.CurrentID())
 	c.shed = shed
@@ -480,8 +657,11 @@ func (w *world) checkAllow(c *call) {
 		return
 	}
 	fLo, fHi := w.flyBounds(c)
-	if c.over && w.mustShed(c, fLo) {
+	if c.overSure && w.mustShed(c, fLo) {
 		r.Probe("must-shed-antecedent")
+		if w.e.realChk {
+			r.Probe("must-shed-antecedent-real-cpu-predicate")
+		}
 		if !c.shed {
 			return
 		}
@@ -496,6 +676,9 @@ func (w *world) checkAllow(c *call) {
 		return
 	}
 	r.Probe("shed")
+	if w.e.realChk {
+		r.Probe("shed-judged-with-real-cpu-predicate")
+	}
 	if !c.over {
 		// cool-off clause
 		recent, drop := false, false
@@ -504,7 +687,7 @@ func (w *world) checkAllow(c *call) {
 			if d == c {
 				continue
 			}
-			if d.over {
+			if w.overPossible(d) {
 				if !d.done || c.tInv-d.tRet < coolOff {
 					recent = true
 				}
@@ -593,7 +776,7 @@ func (w *world) mustShed(c *call, fLo int) bool {
 // ---------------------------------------------------------------------------
 
 func drawThink(t *simrt.Tape, cfg config) time.Duration {
-	switch t.Intn(12) {
+	switch t.Intn(16) {
 	case 0, 1, 2:
 		return 0
 	case 3:
@@ -612,6 +795,14 @@ func drawThink(t *simrt.Tape, cfg config) time.Duration {
 		return time.Second + 1
 	case 10:
 		return cfg.window + cfg.interval()
+	case 12:
+		return cfg.interval() - 1
+	case 13:
+		return cfg.interval() + 1
+	case 14:
+		return cfg.window - time.Duration(t.Intn(2))
+	case 15:
+		return 10*time.Minute + 1 // every window has long expired
 	default:
 		return time.Duration(t.Range(1, 3)) * time.Second
 	}
@@ -626,6 +817,9 @@ func drawCPU(t *simrt.Tape, thr int64) int64 {
 	case 2:
 		return thr
 	case 3:
+		if thr == 0 {
+			return 0
+		}
 		return thr - 1
 	default:
 		return (thr + 1000) / 2
@@ -638,19 +832,23 @@ func body(r *simrt.Run, tier string) {
 	defer e.uninstall()
 	// existing scenario families keep 2/3 of the runs; ShedderGroup with several keys 1/6,
 	// REST engine wiring 1/6 (+ a share of the disabled runs each)
-	switch r.Tape.Intn(12) {
+	kind := r.Tape.Intn(13)
+	if r.Tape.Chance(1, 3) {
+		e.useRealPredicate()
+	}
+	switch kind {
 	case 0, 1, 2:
 		steady(e, tier, false)
 	case 3, 4, 5:
-		mixed(e, tier, false, false)
+		mixed(e, tier, false, mSingle)
 	case 6:
 		// load.Disable(): whatever is created afterwards - directly, through a
 		// ShedderGroup, by the REST engine - never sheds
 		switch r.Tape.Intn(3) {
 		case 0:
-			mixed(e, tier, true, false)
+			mixed(e, tier, true, mSingle)
 		case 1:
-			mixed(e, tier, true, true)
+			mixed(e, tier, true, mGroup)
 		default:
 			engineMode(e, tier, true)
 		}
@@ -659,7 +857,9 @@ func body(r *simrt.Run, tier string) {
 	case 8:
 		steady(e, tier, true)
 	case 9:
-		mixed(e, tier, false, true)
+		mixed(e, tier, false, mGroup)
+	case 12:
+		mixed(e, tier, false, mFleet)
 	default:
 		engineMode(e, tier, false)
 	}
@@ -676,16 +876,36 @@ type op struct {
 	key  int // which shedder of the group (multi-key runs)
 }
 
-// mixed: multi = several keys of one ShedderGroup, every client has a home key it
-// mostly works on, so the keys carry different in-flight populations.
-func mixed(e *env, tier string, disabled, multi bool) {
+// what the clients of mixed work on
+const (
+	mSingle = iota // one shedder
+	mGroup         // 2-3 keys of one ShedderGroup (one configuration)
+	mFleet         // 2-3 unrelated shedders, each with its own configuration and creation instant
+)
+
+// mixed: mGroup = several keys of one ShedderGroup, every client has a home key it
+// mostly works on, so the keys carry different in-flight populations.  mFleet =
+// several independent shedders (own configuration each, created directly or through
+// a group of their own, one after the other with load.Disable() / load.DisableLog()
+// possibly called in between): they share nothing but go-zero's package-level
+// state, each is judged on its own; the ones created after Disable() never shed,
+// the ones created before it go on as before.
+func mixed(e *env, tier string, disabled bool, mode int) {
 	r, t := e.r, e.r.Tape
+	multi := mode != mSingle
 	cfg := drawConfig(t)
 	via, nKeys := 0, 1
 	if multi {
 		via, nKeys = 2, t.Range(2, 3)
 	} else {
 		via = t.Intn(2)
+	}
+	cfgs := make([]config, nKeys)
+	for i := range cfgs {
+		cfgs[i] = cfg
+		if mode == mFleet && i > 0 {
+			cfgs[i] = drawConfig(t)
+		}
 	}
 	maxC, maxOps := 5, 14
 	if tier == "thorough" {
@@ -710,7 +930,7 @@ func mixed(e *env, tier string, disabled, multi bool) {
 			case v < 7:
 				o.kind = 2
 			default:
-				o.kind, o.d = 3, drawThink(t, cfg)
+				o.kind, o.d = 3, drawThink(t, cfgs[home])
 			}
 			if multi && o.kind != 3 {
 				o.key = home
@@ -731,8 +951,13 @@ func mixed(e *env, tier string, disabled, multi bool) {
 	}
 	var flips []flip
 	for i, n := 0, t.Intn(6); i < n; i++ {
-		flips = append(flips, flip{drawThink(t, cfg), drawCPU(t, cfg.thr)})
+		k := 0
+		if mode == mFleet {
+			k = t.Intn(nKeys) // around the threshold of any of the shedders
+		}
+		flips = append(flips, flip{drawThink(t, cfgs[k]), drawCPU(t, cfgs[k].thr)})
 	}
+	maybeDisableLog(e)
 	var between func()
 	if disabled {
 		defer load.VerifC02SetEnabled(true)
@@ -745,18 +970,53 @@ func mixed(e *env, tier string, disabled, multi bool) {
 		}
 	}
 	var ws []*world
-	if multi {
+	switch mode {
+	case mGroup:
 		ws = newGroupWorlds(e, cfg, nKeys, disabled, between)
 		r.Probe("group-multi-key")
-	} else {
+	case mFleet:
+		defer load.VerifC02SetEnabled(true)
+		off := false
+		var how []string
+		for i := 0; i < nKeys; i++ {
+			switch t.Intn(5) {
+			case 3:
+				load.Disable()
+				off = true
+				how = append(how, "Disable()")
+				if i > 0 {
+					r.Probe("fleet-disable-between-creations")
+				}
+			case 4:
+				load.DisableLog()
+				how = append(how, "DisableLog()")
+				r.Probe("stat-log-disabled")
+			}
+			w := newWorld(e, cfgs[i], t.Intn(2), off)
+			w.pfx, w.desc = "fleet/", fmt.Sprintf("shedder%d", i)
+			how = append(how, fmt.Sprintf("shedder%d %+v", i, cfgs[i]))
+			ws = append(ws, w)
+		}
+		for _, w := range ws {
+			for _, p := range ws {
+				if p != w {
+					w.peers = append(w.peers, p)
+				}
+			}
+		}
+		r.Probe("fleet")
+		if r.Tracing() {
+			r.Logf("fleet: %v", how)
+		}
+	default:
 		ws = []*world{newWorld(e, cfg, via, disabled)}
 	}
 	e.setCPU(cpu0)
 	if r.Tracing() {
 		r.Logf("mixed cfg=%+v via=%d keys=%d disabled=%v clients=%d cpu0=%d flips=%+v plans=%+v", cfg, via, nKeys, disabled, nClients, cpu0, flips, plans)
 	}
-	r.Sample(map[string]any{"scenario": "mixed", "disabled": disabled, "window": cfg.window.String(), "buckets": cfg.buckets, "cpu_threshold": cfg.thr,
-		"via_group": via != 0, "group_keys": nKeys, "clients": nClients, "cpu0": cpu0, "cpu_flips": fmt.Sprintf("%+v", flips), "first_client_ops": fmt.Sprintf("%+v", plans[0])})
+	r.Sample(map[string]any{"scenario": []string{"mixed", "mixed/group", "mixed/fleet"}[mode], "disabled": disabled, "window": cfg.window.String(), "buckets": cfg.buckets, "cpu_threshold": cfg.thr,
+		"options": cfg.shape, "real_cpu_predicate": e.realChk, "configs": fmt.Sprintf("%+v", cfgs), "via_group": via != 0, "shedders": nKeys, "clients": nClients, "cpu0": cpu0, "cpu_flips": fmt.Sprintf("%+v", flips), "first_client_ops": fmt.Sprintf("%+v", plans[0])})
 	var tasks []*simrt.Task
 	tasks = append(tasks, r.Go("cpu-trace", func() {
 		for _, f := range flips {
@@ -836,6 +1096,7 @@ func steady(e *env, tier string, multi bool) {
 	r, t := e.r, e.r.Tape
 	cfg := drawConfig(t)
 	e.nTasks = 1
+	maybeDisableLog(e)
 	var w *world
 	var side []*world
 	via := 0
@@ -980,6 +1241,9 @@ func steady(e *env, tier string, multi bool) {
 		}
 		// E: cool-off boundary
 		low := []int64{0, cfg.thr - 1}[t.Intn(2)]
+		if low < 0 {
+			low = 0 // threshold 0: there is no CPU value below it
+		}
 		e.setCPU(low)
 		delta := []time.Duration{time.Second, time.Second - 1, time.Second + 1, 0, 500 * time.Millisecond, 2 * time.Second, 999 * time.Millisecond}[t.Intn(7)]
 		if lo := lastOver(); lo >= 0 {
@@ -1050,7 +1314,7 @@ func steady(e *env, tier string, multi bool) {
 			sideResolve(i, true)
 		}
 	}
-	r.Sample(map[string]any{"scenario": "steady", "window": cfg.window.String(), "buckets": cfg.buckets, "cpu_threshold": cfg.thr,
+	r.Sample(map[string]any{"scenario": "steady", "window": cfg.window.String(), "buckets": cfg.buckets, "cpu_threshold": cfg.thr, "options": cfg.shape, "real_cpu_predicate": e.realChk,
 		"via_group": via != 0, "group_keys": 1 + len(side), "allows": len(w.calls), "shed": w.nShed, "script": script})
 	w.conservation()
 	for _, sw := range side {
